@@ -95,36 +95,49 @@ ASSUMPTIONS = [
 ]
 
 
-BLOCK_PATHS = {"dev": 6, "quick": 6, "thorough": 8}      # paths per process
-BLOCK_PROCS = {"dev": 1, "quick": 2, "thorough": 4}      # processes per (configuration, chain)
+# ---- linear replay through REAL blocks -----------------------------------------------------------------
+# everything together (all object kinds, observed updates, removal, all proposal kinds): too large to enumerate,
+# so TLC *simulates* behaviours of the specification (random walks, EdgeDump prints every step) and TestBlocks
+# walks the printed sub-graph
+C_BLOCKS = consts(O2, kinds=["batch", "call"], sets=3, batch=1, call=1, obs=[1, 2], removable=["o2"], ticks=(1, 3),
+                  propkind=GOVKINDS, props=2)
+BLOCK_SIM = {"dev": 60, "quick": 150, "thorough": 600}    # simulated behaviours (depth 24)
+BLOCK_PATHS = {"dev": 6, "quick": 8, "thorough": 12}      # paths per process
+BLOCK_PROCS = {"dev": 1, "quick": 3, "thorough": 4}       # processes per chain
+BLOCK_CHAINS = {"dev": ["eth"], "quick": ["eth"], "thorough": ["eth", "tron", "bsc"]}
 
 
 def blocks_recorder(work, binary):
-    """Linear replay through REAL blocks: sampled paths of every generated graph of this tier are executed with
-    FinalizeBlock+Commit (TestBlocks) and, on a branch, with the block-boundary emulation graph replay uses; the two
-    must agree (else exit 2); the real-block behaviours are handed to TLC together with the graph-replay traces."""
-    traces, summary = [], dict(paths=0, steps=0, blocks=0, block_failures=0, model_mismatches=0, emulation_mismatches=0, runs=[])
-    procs = []
-    nproc = BLOCK_PROCS.get(work.tier, 1)
-    for c in [c for c in ENDBLOCK_GEN if work.tier in c["tiers"]]:
-        graph = work.path("gen-%s.out.graph" % c["name"])
-        if not os.path.exists(graph):
-            raise Infra("compiled graph of %s not found (%s)" % (c["name"], graph))
-        for h in c["harness"]:
-            summary["runs"].append("%s/%s" % (c["name"], h["chain"]))
-            for i in range(nproc):
-                tag = "blocks-%s-%s-%d" % (c["name"], h["chain"], i)
-                env = dict(VERIF_EDGES=graph, VERIF_CONST=json.dumps(h), VERIF_SHARD=i, VERIF_SHARDS=nproc,
-                           VERIF_PATHS=BLOCK_PATHS.get(work.tier, 6), VERIF_PATHLEN=c.get("pathlen", 18),
-                           VERIF_TRACES=work.path(tag + ".ndjson"), VERIF_STATS=work.path(tag + ".json"))
-                held = vlib.acquire_slots(1)      # blocks until a slot is free; running processes free theirs on exit
-                procs.append((tag, c, h, vlib.run_harness(work, binary, "TestBlocks", env, work.path(tag + ".log")), held))
-                # release the slots of finished processes early
-                for q in procs:
-                    if q[4] is not None and q[3].poll() is not None:
-                        vlib.release_slots(q[4])
-                        procs[procs.index(q)] = q[:4] + (None,)
-    for tag, c, h, p, held in procs:
+    """Sampled behaviours of the specification are executed on fresh chains through REAL FinalizeBlock+Commit
+    (TestBlocks) and, on a branch of the same chain, through the block-boundary emulation graph replay uses; the two
+    must agree step by step (else exit 2); the real-block behaviours are handed to TLC with the graph-replay traces."""
+    tier = work.tier
+    c = dict(name="blocks", consts=C_BLOCKS, overrides={"Stake": "Stake2"})
+    cfg_path = work.path("sim-blocks.cfg")
+    vlib.write_cfg(cfg_path, init="Init", next_="Next", consts=c["consts"], overrides=c["overrides"], action_constraint="EdgeDump")
+    edges = work.path("sim-blocks.out")
+    r = vlib.run_tlc(work, "EndBlockMC.tla", cfg_path, edges, workers=1, timeout=600,
+                     extra=["-simulate", "num=%d" % BLOCK_SIM.get(tier, 100), "-depth", "24", "-seed", str(work.seed)])
+    if r["error"] or r["rc"] != 0:
+        raise Infra("simulation run for the real-block replay failed: %s\n%s" % (r["error"], r["tail"][-1500:]))
+    summary = dict(paths=0, steps=0, blocks=0, block_failures=0, model_mismatches=0, emulation_mismatches=0,
+                   consts=C_BLOCKS, chains=BLOCK_CHAINS.get(tier, ["eth"]), simulated_behaviours=BLOCK_SIM.get(tier, 100))
+    procs, traces = [], []
+    nproc = BLOCK_PROCS.get(tier, 1)
+    for chain in summary["chains"]:
+        h = harness(chain, C_BLOCKS["Oracle"], "Stake2", C_BLOCKS["W"])
+        for i in range(nproc):
+            tag = "blocks-%s-%d" % (chain, i)
+            env = dict(VERIF_EDGES=edges, VERIF_CONST=json.dumps(h), VERIF_SHARD=i, VERIF_SHARDS=nproc,
+                       VERIF_PATHS=BLOCK_PATHS.get(tier, 6), VERIF_PATHLEN=24,
+                       VERIF_TRACES=work.path(tag + ".ndjson"), VERIF_STATS=work.path(tag + ".json"))
+            held = vlib.acquire_slots(1)      # blocks until a slot is free; running processes free theirs when reaped below
+            procs.append([tag, h, vlib.run_harness(work, binary, "TestBlocks", env, work.path(tag + ".log")), held])
+            for q in procs:
+                if q[3] is not None and q[2].poll() is not None:
+                    vlib.release_slots(q[3])
+                    q[3] = None
+    for tag, h, p, held in procs:
         rc = p.wait()
         vlib.release_slots(held)
         logtxt = open(work.path(tag + ".log"), errors="replace").read()
@@ -143,10 +156,13 @@ def blocks_recorder(work, binary):
         if st["first_model_mismatch"] and "first_model_mismatch" not in summary:
             summary["first_model_mismatch"] = st["first_model_mismatch"][:1500]
         traces.append((work.path(tag + ".ndjson"), None, c, h))
+    os.remove(edges)
     log("real blocks: %(paths)d paths, %(steps)d steps, %(blocks)d FinalizeBlock+Commit, %(block_failures)d failed blocks, "
         "%(model_mismatches)d steps differ from the specification, %(emulation_mismatches)d from the branch emulation" % summary)
     if summary.get("first_block_failure"):
         log("  first failed block:", summary["first_block_failure"])
+    if summary["model_mismatches"]:
+        log("NOTE: real blocks deviate from the specification:", summary.get("first_model_mismatch", "")[:1200])
     return dict(traces=traces, summary=summary)
 
 
